@@ -27,6 +27,7 @@ const (
 	evOpt          // if cond { body } [else { alt }]
 	evLoop         // for … range x.<field> { body }
 	evRet       // early return
+	evTerm         // request to write the statement terminator that was left out (before a keyword)
 	evOther        // unrecognised call (fail closed where it matters)
 )
 
@@ -321,6 +322,9 @@ func (x *pextract) call(call *ast.CallExpr) *pev {
 		case "WriteSemi":
 			return &pev{kind: evSemi, pos: pos}
 		}
+		if sg := x.c.semiGuard(); sg.terminate != nil && m == sg.terminate.Name() && len(call.Args) == 0 {
+			return &pev{kind: evTerm, pos: pos}
+		}
 		return &pev{kind: evOther, text: "writer method " + m, pos: pos}
 	}
 	// <field>.WriteTo(cw)
@@ -380,6 +384,8 @@ func (e *pev) String() string {
 		return "{" + e.field + ": " + seqString(e.kids) + "}"
 	case evRet:
 		return "return"
+	case evTerm:
+		return ";!"
 	}
 	return "?" + e.text
 }
